@@ -17,6 +17,8 @@ def run(ctx):
     rk = ctx.rule('R-CONSTOBS', 'const observers and shared-attached continuations never move the value', minimum=20)
     rcn = ctx.rule('R-CONNECT', 'Connect with shared sources/targets', minimum=4)
     rn = ctx.rule('R-NODISCARD', 'registration results used', minimum=20)
+    rnr = ctx.rule('R-NODEREUSE', 'one callback object is registered on at most one shared core (intrusive next link)',
+                   minimum=4)
     for cfg, fb in sorted(fbs.items()):
         seen = 0
         for f in sorted(fb.fn.values(), key=lambda f: f.full):
@@ -38,5 +40,6 @@ def run(ctx):
         lib_core.check_shared_factories(ctx, fb, rm)
         lib_core.check_const_observers(ctx, fb, rk)
         lib_core.check_connect(ctx, fb, rcn)
+        lib_core.check_node_reuse(ctx, fb, rnr)
         lib_core.check_nodiscard(ctx, fb, rn, lambda f: 'shared' in f.file or 'connect' in f.file or 'share.hpp' in
                                  f.file or 'split.hpp' in f.file or 'base_core' in f.file or 'result_core' in f.file)
